@@ -45,13 +45,21 @@ def _load_ext(so):
 
 
 def build_model(q, spec):
-    """spec: {"type": "dict"|class name, "terms": {...}, "cancel": [labels]}; `cancel` labels get +1 then -1 on their
+    """spec: {"type": "dict"|class name, "terms": {...}, "cancel": [labels], "premap": [(label, int)]}; `cancel` labels get +1 then -1 on their
     linear term, so they are registered as variables although no term is left."""
     t = spec["type"]
     if t == "dict":
         return dict(spec["terms"])
     cls = getattr(q, t) if hasattr(q, t) else getattr(q.utils, t)
-    M = cls(spec["terms"])
+    if spec.get("premap"):
+        # the enumeration is chosen first (set_mapping, documented), the terms are entered afterwards; the mapping may
+        # name labels the model never uses and integers that are not contiguous
+        M = cls()
+        M.set_mapping(dict(spec["premap"]))
+        for k, v in spec["terms"].items():
+            M[k] += v
+    else:
+        M = cls(spec["terms"])
     for lab in spec.get("cancel", ()):
         M[(lab,)] += 1
         M[(lab,)] -= 1
